@@ -321,9 +321,8 @@ fn stripes(a: &Args, tracer: &Tracer) {
         }
         match weight_of(index, schema, &c["q"], scoring) {
             Ok((w, searcher)) => {
-                let av = steer(a, schema, &c["q"]);
                 for (ord, sr) in searcher.segment_readers().iter().enumerate() {
-                    run_scorer_case(tracer, w.as_ref(), sr, ord, &c["q"], scoring, &progs, &extra, av);
+                    run_scorer_case(tracer, w.as_ref(), sr, ord, &c["q"], scoring, &progs, &extra);
                 }
             }
             Err(e) => {
@@ -448,8 +447,7 @@ fn random(a: &Args, tracer: &Tracer) {
                 Err(_) => (vec![], vec![]),
             };
             let progs: Vec<Vec<Value>> = (0..nprogs).map(|_| gen_prog(&mut rng, &seq, sr.max_doc(), maxlen, !a.flag("stop-at-count"))).collect();
-            run_scorer_case(tracer, w.as_ref(), sr, ord, &q, scoring, &progs, &json!({"qi":qi}),
-                            steer(a, &schema, &q));
+            run_scorer_case(tracer, w.as_ref(), sr, ord, &q, scoring, &progs, &json!({"qi":qi}));
         }
     }
 }
